@@ -153,69 +153,7 @@ def _evaluate(case, n_models=8, with_unpatched=True):
     return {"by_order": by_order, "unpatched": r0, "fail": fail, "kind": kind, "in_domain": dom}
 
 
-def _key_of(case, kind):
-    return json.dumps([kind, K.relabel_canonical(case, keys=("event",))], sort_keys=True)
-
-
-def _still_fails(cand, kind):
-    """same failure kind on the candidate: tried with two different model samples before giving up (a wrong estimand
-    can coincide with the right value on degenerate models)"""
-    for ds in (0, 7919):
-        c = dict(cand, seed=cand.get("seed", 0) + ds)
-        r = _evaluate(c, n_models=8, with_unpatched=False)
-        if r["fail"] and r["kind"] == kind:
-            return True
-    return False
-
-
-def _shrink_fully(case, kind, budget=400, order_seed=None):
-    """greedy shrinking that keeps the failure kind; `order_seed` shuffles the candidate order (another local minimum)"""
-    cur = {k: case[k] for k in ("g", "event", "seed") if k in case}
-    cur["g"] = {"nodes": G.all_nodes(cur["g"]), "di": cur["g"]["di"], "bi": cur["g"]["bi"]}
-    rng = random.Random(order_seed) if order_seed is not None else None
-    improved = True
-    while improved and budget > 0:
-        improved = False
-        cands = list(K.shrink_event_case(cur, keys=("event",)))
-        if rng is not None:
-            rng.shuffle(cands)
-        for cand in cands:
-            budget -= 1
-            if budget <= 0:
-                break
-            try:
-                ok = _still_fails(cand, kind)
-            except Exception:
-                continue
-            if ok:
-                cur = cand
-                improved = True
-                break
-    return cur
-
-
-_KNOWN = None
-
-
-def _known_keys():
-    global _KNOWN
-    if _KNOWN is None:
-        _KNOWN = {f["key"] for f in C.load_known(PROP)}
-    return _KNOWN
-
-
-def _shrink_to_key(case, kind):
-    """(shrunk case, key).  The greedy local minimum first; if its key is not a listed finding, a few other shrink
-    orders are tried and a listed key is preferred (the same defect has several local minima)."""
-    small = _shrink_fully(case, kind)
-    key = _key_of(small, kind)
-    if key not in _known_keys():
-        for t in range(6):
-            alt = _shrink_fully(case, kind, order_seed=case.get("seed", 0) * 31 + t)
-            k2 = _key_of(alt, kind)
-            if k2 in _known_keys():
-                return alt, k2
-    return small, key
+SHRINK = K.Shrinker(PROP, ("event",), _evaluate, ("g", "event", "seed"))
 
 
 def run_python(case):
@@ -240,11 +178,11 @@ def run_python(case):
         shape in ("P", "sum", "prod", "unidentifiable", "zero")
     out = {"out": ["orders", by_order], "fail": r["fail"], "nontrivial": bool(nontrivial), "tags": tags}
     if r["fail"] and not case.get("_noshrink"):
-        small, key = _shrink_to_key(case, r["kind"])
+        small, key = SHRINK.shrink_to_key(case, r["kind"])
         out["shrunk"] = small
         out["finding_key"] = key
     elif r["fail"]:
-        out["finding_key"] = _key_of(case, r["kind"])
+        out["finding_key"] = SHRINK.key_of(case, r["kind"])
     return out
 
 
@@ -274,7 +212,7 @@ def shrink(case):
         return
     r = _evaluate(case)
     if r["fail"]:
-        small, _ = _shrink_to_key(case, r["kind"])
+        small, _ = SHRINK.shrink_to_key(case, r["kind"])
         small = dict(small, _noshrink=True)
         yield small
 
@@ -283,7 +221,7 @@ def finding_key(case, res):
     if res.get("finding_key"):
         return res["finding_key"]
     r = _evaluate(case)
-    return _key_of(case, r["kind"])
+    return SHRINK.key_of(case, r["kind"])
 
 
 MANIFEST = {
